@@ -17,6 +17,8 @@ TIER_SIZES = {
     "perm": (24, 200),
     "join": (40, 300),      # join-heavy workflows, fractional transfer waits
     "b2b": (16, 160),       # sub-array observations starting exactly when others finish
+    "units": (16, 120),     # timestep unit of 4 s, planned starts between two steps
+    "bigcap": (6, 40),      # capacities ~2e9, data volumes of a few units
     "overrate": (6, 40),    # data rate above the hot buffer's maximum ingest rate
     "tier": (20, 160),      # hot buffer beyond its tiering threshold (known findings live here)
     "overlap": (8, 40),
@@ -44,6 +46,12 @@ def jobs(tier, seed):
     rng = random.Random(f"b2b-{seed}")
     for i in range(TIER_SIZES["b2b"][idx]):
         out.append(("b2b", gen.random_cfg(rng, alg=algs[i % 3], family="b2b"), {}))
+    rng = random.Random(f"units-{seed}")
+    for i in range(TIER_SIZES["units"][idx]):
+        out.append(("units", gen.random_cfg(rng, alg=algs[i % len(algs)], family="units"), {}))
+    rng = random.Random(f"bigcap-{seed}")
+    for i in range(TIER_SIZES["bigcap"][idx]):
+        out.append(("bigcap", gen.random_cfg(rng, alg=algs[i % 3], family="bigcap"), {}))
     rng = random.Random(f"overrate-{seed}")
     for i in range(TIER_SIZES["overrate"][idx]):
         out.append(("overrate", gen.random_cfg(rng, alg=algs[i % 3], family="overrate"), {}))
